@@ -23,8 +23,8 @@ func init() {
 		Rule: "ops bitsu/bitsi <buffer> <pos> <len>: all 8 alignments x all widths 1..64 (signed 2..64) x " +
 			"pattern classes (zeros, ones, minimum value, alternating, random) with random surrounding bits; " +
 			"non-trivial = field inside the buffer; distinct = distinct op line",
-		Gen:    genC14,
-		Oracle: oracleC14,
+		Gen:        genC14,
+		Oracle:     oracleC14,
 		NonTrivial: func(op string, o *Obs) bool { return o.Panic == "" },
 	}
 }
